@@ -533,6 +533,11 @@ func (dsc *dataStoreCommand) addFloat(keyName string, delta float64) (value floa
 		}
 
 		value += delta
+		if math.IsInf(value, 0) || math.IsNaN(value) {
+			// the sum left the range of finite numbers: nothing is stored
+			valid = VALUE_OVERFLOW
+			return
+		}
 		expiration = time.Time(oldSk.expiresAt)
 	} else {
 		value = delta
